@@ -22,7 +22,7 @@ use self::{
     unsafe_erc20_operation::unsafe_erc20_operation_vulnerability,
 };
 
-#[derive(Clone, Copy, Debug, Hash, PartialEq, Eq)]
+#[derive(Clone, Copy, Debug, Hash, PartialEq, Eq, PartialOrd, Ord)]
 
 pub enum Vulnerability {
     FloatingPragma,
